@@ -25,7 +25,7 @@ def run(R):
     if R.tier == "thorough":
         R.mc("MC_C15", "MC_C15_Toy61.cfg", timeout=1800)
     labs = ["default"] if R.tier == "quick" else ["default", "noavx2", "purego", "force32bit"]
-    recs = record_configs(R, labs, n=(4 if R.tier == "quick" else 32))
+    recs = record_configs(R, labs, n=(4 if R.tier == "quick" else 14))
     for lab, files in recs.items():
         R.count_events(files, key=lambda e: e.get("op", "?") + ":" + e.get("kind", ""))
         rej = R.validate(MODULE, files, label=lab, timeout=14400)
